@@ -4,14 +4,16 @@ import XrsVerif.Model.AStar
 namespace XrsVerif.Driver.AStarCmd
 open XrsVerif XrsVerif.Wire XrsVerif.AStar
 
-def numToOpt : Num → Option (Option Rat)
-  | .nan => some none
-  | .fin q => some (some q)
-  | _ => none
+def numToVal : Num → Val
+  | .nan => .nan
+  | .pinf => .pinf
+  | .ninf => .ninf
+  | .fin q => .fin q
 
-def crossOf (g : GridOf Num) (barriers : List Rat) : Option (Cell → Bool) := do
-  let vals ← g.data.toList.mapM numToOpt
-  let arr := (vals.map fun v => !notCrossable v barriers).toArray
+/-- cells and barriers are exact extended numbers (any surface dtype, any Python number in the list) -/
+def crossOf (g : GridOf Num) (barriers : List Num) : Option (Cell → Bool) := do
+  let bs := barriers.map numToVal
+  let arr := (g.data.toList.map fun v => !notCrossableV (numToVal v) bs).toArray
   some fun c => if inside g.h g.w c then arr.getD (c.1.toNat * g.w + c.2.toNat) false else false
 
 def finRat? (a : Args) (k : String) : Option Rat :=
@@ -45,7 +47,7 @@ def cmdPixelId (a : Args) : String := Id.run do
 /-- `nearest data=<grid> barriers=<list> py= px=` -> `y,x` or `none` -/
 def cmdNearest (a : Args) : String := Id.run do
   let some g := (a.get? "data") >>= parseGrid parseNum | return "bad-args data"
-  let some bs := finRats? a "barriers" | return "bad-args barriers"
+  let some bs := a.nums? "barriers" | return "bad-args barriers"
   let some cross := crossOf g bs | return "bad-args data-values"
   let some py := a.int? "py" | return "bad-args py"
   let some px := a.int? "px" | return "bad-args px"
@@ -65,7 +67,7 @@ def cellSizes (a : Args) (h w : Nat) (ystep xstep : Rat) : Except String (Rat ×
     -> `err:<Exception>` | `ok start=y,x goal=y,x F=<grid> Q=<grid>` -/
 def cmdAStar (a : Args) : String := Id.run do
   let some g := (a.get? "data") >>= parseGrid parseNum | return "bad-args data"
-  let some bs := finRats? a "barriers" | return "bad-args barriers"
+  let some bs := a.nums? "barriers" | return "bad-args barriers"
   let some cross := crossOf g bs | return "bad-args data-values"
   let some conn := a.nat? "conn" | return "bad-args conn"
   if conn ≠ 4 ∧ conn ≠ 8 then return "err:ValueError"
